@@ -10,6 +10,8 @@ pub mod maxsize;
 pub mod io;
 pub mod schema;
 pub mod schema_typed;
+pub mod dynchk;
+pub mod dyn_typed;
 
 use crate::rt::{Ctx, Tier};
 
@@ -35,6 +37,8 @@ pub fn run(id: &str, tier: Tier, seed: u64) -> i32 {
         "C14" => schema_typed::run(&ctx),
         "C15" => schema::run_c15(&ctx),
         "C16" => schema::run_c16(&ctx),
+        "C17" => dynchk::run_c17(&ctx),
+        "C18" => dynchk::run_c18(&ctx),
         "C19" => schema::run_c19(&ctx),
         "C20" => stacks::run(&ctx),
         "C09" => acc::run(&ctx, true),
@@ -51,6 +55,9 @@ pub fn replay(_path: &str) -> i32 {
     2
 }
 
-pub fn worker(_args: &[String]) -> i32 {
-    2
+pub fn worker(args: &[String]) -> i32 {
+    match args.first().map(|s| s.as_str()) {
+        Some("c18-decode") if args.len() == 3 => dynchk::worker_decode(&args[1..]),
+        _ => 2,
+    }
 }
